@@ -529,7 +529,11 @@ impl<T, Flds> Recognizer for OrdinalFieldsRecognizer<T, Flds> {
 
     fn reset(&mut self) {
         self.index = 0;
-        self.state = BodyStage::Init;
+        self.state = if self.is_attr_body {
+            BodyStage::Between
+        } else {
+            BodyStage::Init
+        };
         (self.reset)(&mut self.fields)
     }
 }
